@@ -242,7 +242,7 @@ def t_kamino_solend(world):
     # Solend CollateralExchangeRate round trip
     def run_rate(fname, nm):
         eng = world.engine(primary='solend', extra=('typecrate',))
-        f = world.fn(r'CollateralExchangeRate[^:]*>::%s$|state::<impl at [^>]*solend-mocks/src/state.rs:3[0-9][0-9][^>]*>::%s$' % (fname, fname), 'solend')
+        f = world.fn(r'solend-mocks/src/state\.rs[^>]*>::%s$' % fname, 'solend', pred=lambda f_: 'CollateralExchangeRate' in f_.params[0][1])
         args = [eng.ex.fresh(f.params[0][1], 'rate'), eng.ex.fresh('u64', nm)]
         return eng, f, args, eng.run_fn(f, args)
     e1, f1, a1, r1 = run_rate('liquidity_to_collateral', 'liq')
